@@ -80,7 +80,9 @@ Goto(st, next) == [st EXCEPT !.pc = next]
 L(st, es) == Labelled(es, View(st).idx)
 
 Preprocess(st) ==                  \* check_obj if inplace else check_obj.copy()
-  Goto([st EXCEPT !.aliased = st.inplace, !.obj = st.inp], "default")
+  IF st.S.drop /\ ~st.lazy           \* drop_invalid_rows requires lazy=True
+  THEN [Goto(st, "done") EXCEPT !.out = [kind |-> "SchemaDefinitionError"]]
+  ELSE Goto([st EXCEPT !.aliased = st.inplace, !.obj = st.inp], "default")
 
 SetDefault(st) ==                  \* check_obj = check_obj.fillna(default): a new object
   Goto(IF IsNull(st.S.default) THEN st
@@ -95,7 +97,8 @@ CoerceDtype(st) ==                 \* check_obj = try_coerce(check_obj): a new o
 
 CheckName(st)     == Goto(Collect(st, L(st, CoreName(st.S, View(st)))), "nullable")
 CheckNullable(st) == Goto(Collect(st, L(st, CoreNullable(st.S, View(st)))), "unique")
-CheckUnique(st)   == Goto(Collect(st, L(st, CoreUnique(st.S, View(st)))), "dtype")
+CheckUnique(st)   ==
+  Goto(Collect(st, L(st, CoreUniqueWith(st.S, View(st), "DuplicateNullsNotReported" \in st.dev))), "dtype")
 CheckDtype(st)    == Goto(Collect(st, L(st, CoreDtype(st.S, View(st)))), "checks")
 
 RunCheck(st) ==                    \* one user check per step
@@ -103,8 +106,26 @@ RunCheck(st) ==                    \* one user check per step
 
 Raise(st) == [kind |-> IF st.lazy THEN "SchemaErrors" ELSE "SchemaError", errors |-> st.errs]
 
+(* drop_invalid_rows: remove the rows named by the failure cases (by index label;   *)
+(* C11 assumes a unique index).  Ideal: a violation that is not attributable to rows *)
+(* is still raised.  Deviation DropRowsIndexesScalarFailure (as shipped): the code    *)
+(* indexes the scalar failure case and dies with TypeError.                           *)
+CaseLabels(errs) == UNION { { errs[e].cases[j][1] : j \in 1..Len(errs[e].cases) } : e \in 1..Len(errs) }
+HasScalarError(errs) == \E e \in 1..Len(errs) : errs[e].scalar
+DropRowsOfField(f, labels) ==
+  SubField(f, SetToSortedSeq({ i \in 1..Len(f.idx) : f.idx[i] \notin labels }))
+DropOutcome(st, dropper(_, _)) ==
+  IF HasScalarError(st.errs)
+  THEN IF "DropRowsIndexesScalarFailure" \in st.dev THEN [kind |-> "Leak:TypeError"] ELSE Raise(st)
+  ELSE [kind |-> "ok", returned |-> dropper(st.obj, CaseLabels(st.errs))]
+
 ValuesDone(st) ==                  \* end of ArraySchemaBackend.validate
-  IF st.errs # <<>> THEN [Goto(st, "done") EXCEPT !.out = Raise(st)]
+  IF st.errs # <<>> /\ st.S.drop /\ st.lazy
+  THEN LET o == DropOutcome(st, DropRowsOfField)
+       IN IF o.kind = "ok" /\ HasIndexS(st.S)
+          THEN Goto([st EXCEPT !.obj = o.returned, !.aliased = FALSE, !.errs = <<>>], "index_coerce")
+          ELSE [Goto(st, "done") EXCEPT !.out = o]
+  ELSE IF st.errs # <<>> THEN [Goto(st, "done") EXCEPT !.out = Raise(st)]
   ELSE IF HasIndexS(st.S) THEN Goto(st, "index_coerce")
        ELSE [Goto(st, "done") EXCEPT !.out = [kind |-> "ok", returned |-> st.obj]]
 
@@ -195,7 +216,7 @@ VerdictEqualsSemantics ==
 IdentityOnSuccess == Done /\ Ideal /\ st.out.kind = "ok" /\ NoParsing(st.S) => st.out.returned = st.inp0
 
 (* C02: lazy collects every error, eager raises the first of them *)
-AllErrors(s) == Labelled(FieldErrors(s.S, s.inp0), s.inp0.idx)
+AllErrors(s) == Labelled(FieldErrorsIdeal(s.S, s.inp0), s.inp0.idx)
 ReportExact ==
   Done /\ Ideal /\ st.out.kind # "ok" /\ NoParsing(st.S) /\ ~HasIndexS(st.S) =>
      IF st.lazy THEN st.out.errors = AllErrors(st) ELSE st.out.errors = <<AllErrors(st)[1]>>
@@ -236,6 +257,19 @@ SubsampleIsSubframe ==
 SelectAllIsNoOption ==
   Done /\ Ideal /\ ~st.sel.all /\ Len(Selected(st.sel, st.inp0.idx, {})) = Len(st.inp0.idx) =>
      (st.out.kind = "ok") <=> (Run(Start(st.S, st.inp0, st.lazy, st.inplace, {})).out.kind = "ok")
+
+(* C11: with drop_invalid_rows the result holds exactly the rows on which every  *)
+(* row-level constraint holds, in their original order                            *)
+RowOK(schema, f, i) ==       \* row i satisfies the row-level constraints of the field schema
+  /\ schema.nullable \/ ~IsNull(f.cells[i])
+  /\ ~schema.unique \/ i \notin DupReported(schema.report, f.cells)
+  /\ \A k \in 1..Len(schema.checks) :
+        schema.checks[k].warn \/ schema.checks[k].k = "unique_values_eq"
+          \/ (IsNull(f.cells[i]) /\ schema.checks[k].ina) \/ CellOK(schema.checks[k], f.cells[i])
+DropIsExact ==
+  Done /\ Ideal /\ st.S.drop /\ st.lazy /\ st.out.kind = "ok" /\ ~HasIndexS(st.S) /\ ~st.S.coerce
+    /\ IsNull(st.S.default) =>
+     st.out.returned = SubField(st.inp0, SetToSortedSeq({ i \in 1..Len(st.inp0.idx) : RowOK(st.S, st.inp0, i) }))
 
 (* C04: the caller's object is never written without inplace *)
 NoCallerMutation == Ideal /\ ~st.inplace => st.inp = st.inp0
